@@ -845,6 +845,14 @@ func (e *SpecEnv) evalCall(x *ECall) SV {
 					e.fail("ghostvar(NAME)")
 				}
 				return SV{t: fc.comp(e.cur, "G|v|"+id.Name, "Int"), typ: mathInt}
+			case "strseq":
+				// strseq(s): the byte string of a Go string as a seq() code; []byte(s) conversions get seq(result) == strseq(s) (ext_crypto.go)
+				v := e.eval(x.Args[0])
+				if tc.sortOfSV(v) != "Str" {
+					e.fail("strseq of non-string")
+				}
+				fc.eng.declareUF(fc, "strseq", []string{"Str"}, "Int")
+				return SV{t: app("strseq", v.t), typ: mathInt}
 			case "inblock":
 				// inblock(p, s): pointer p is the address of an element of the backing array of slice s (any index) (ext_crypto.go)
 				return e.inblockBuiltin(x)
@@ -1065,6 +1073,7 @@ func (e *SpecEnv) applySpecFn(sf *SpecFn, argExprs []Expr) SV {
 		if len(sf.Reads) > 0 {
 			// `reads` clause: the listed heap components (of the state the call is evaluated in) are extra arguments
 			rs, rt := e.readsArgs(sf, &n)
+			e.readsFrame("sf_"+mangle(sf.Pkg+"_"+sf.Name), e.fc.tc.sortOf(ret), rs, rt, func(ent *SpecEnv) []string { _, t0 := ent.readsArgs(sf, &n); return t0 }, sorts, args)
 			sorts, ts = append(rs, sorts...), append(rt, ts...)
 		}
 		name := "sf_" + mangle(sf.Pkg+"_"+sf.Name)
@@ -1405,9 +1414,22 @@ func (e *SpecEnv) applyRec(sf *SpecFn, n *SpecEnv, args []SV) SV {
 		fc.assumes["rec spec "+sf.Pkg+"."+sf.Name+": defining equation (syntactically well-founded on its last parameter)"] = true
 	}
 	var ts []string
+	var hsorts, asorts []string
 	for _, k := range comps {
 		ts = append(ts, fc.comp(e.cur, k, fc.comps[k]))
+		hsorts = append(hsorts, fc.comps[k])
 	}
+	for _, a := range args {
+		asorts = append(asorts, fc.tc.sortOfSV(a))
+	}
+	// frame rule w.r.t. the entry state (opt-in `uses readsframe`, ext_crypto.go)
+	e.readsFrame(name, fc.tc.sortOf(ret), hsorts, append([]string{}, ts...), func(ent *SpecEnv) []string {
+		var t0 []string
+		for _, k := range comps {
+			t0 = append(t0, fc.comp(ent.cur, k, fc.comps[k]))
+		}
+		return t0
+	}, asorts, args)
 	for _, a := range args {
 		ts = append(ts, a.t)
 	}
